@@ -32,7 +32,7 @@ Definition cause_of_exit (c : ctl) : option cause :=
   | _ => None
   end.
 
-Definition no_world : world := mkworld (PositiveMap.empty N) [] [] [] 0.
+Definition no_world : world := mkworld (PositiveMap.empty N) [] [] [] 0 no_dev.
 (* the local variables at the loop head: run the statements before the loop *)
 Definition loop_env (params : env) (prelude : stmt) : option env :=
   match exec cfg call prelude params no_world with SOk CNormal en _ => Some en | _ => None end.
@@ -60,7 +60,7 @@ Definition src_fast_step (s : pst) : option (pst + cause * pst) :=
   | None => None
   | Some en0 =>
     let en := bind (bind en0 v_run_fast_ip (VInt s.(p_ip))) v_run_fast_ops (VInt s.(p_ops)) in
-    fast_outcome (exec cfg call src_run_fast_body en (mkworld s.(p_mem) s.(p_inp) s.(p_out) s.(p_hist) 0))
+    fast_outcome (exec cfg call src_run_fast_body en (mkworld s.(p_mem) s.(p_inp) s.(p_out) s.(p_hist) 0 no_dev))
   end.
 
 (* ---- _run_featured (breakpoint_handler = None, show_trace = False): one iteration ---------------------------- *)
@@ -86,7 +86,7 @@ Definition src_featured_step (s : pst) : option (pst + cause * pst) :=
   | None => None
   | Some en0 =>
     let en := bind en0 v_run_featured_ip (VInt s.(p_ip)) in
-    featured_outcome (exec cfg call src_run_featured_body en (mkworld s.(p_mem) s.(p_inp) s.(p_out) s.(p_hist) s.(p_ops)))
+    featured_outcome (exec cfg call src_run_featured_body en (mkworld s.(p_mem) s.(p_inp) s.(p_out) s.(p_hist) s.(p_ops) no_dev))
   end.
 End W.
 
